@@ -192,6 +192,9 @@ OBS = {
     # name: (number of sources, dask pipeline, local twin, gated(element value) -> bool)
     "sliding": (1, lambda S: S[0].scatter().map(F.gated_x10).sliding_window(2, return_partial=False).gather(),
                 lambda S: S[0].map(_x10).sliding_window(2, return_partial=False)),
+    # partial windows of three: the first two windows are prefixes of the third and may be on their way through the cluster together
+    "sliding3_partial": (1, lambda S: S[0].scatter().map(F.gated_x10).sliding_window(3, return_partial=True).gather(),
+                         lambda S: S[0].map(_x10).sliding_window(3, return_partial=True)),
     "partition": (1, lambda S: S[0].scatter().map(F.gated_x10).partition(2).gather(),
                   lambda S: S[0].map(_x10).partition(2)),
     "buffer_sliding": (1, lambda S: S[0].scatter().map(F.gated_x10).buffer(5).sliding_window(2, return_partial=False).gather(),
@@ -342,7 +345,7 @@ async def amain(a):
         obs = []
         for shape in OBS:
             # (partition(2): four elements, so that a second partition forms while the first one waits for the cluster)
-            nn = 4 if shape == "partition" else n
+            nn = 4 if shape in ("partition", "sliding3_partial") else n
             for awaitmode in (True, False):
                 for cons in ("future", "sync"):
                     perms = [tuple(range(1, nn + 1))] if awaitmode else list(itertools.permutations(range(1, nn + 1)))
